@@ -363,6 +363,10 @@ func (x *exec) setLockState(st *State, p *Ptr, v smt.Term) {
 }
 
 func (x *exec) lockObligation(st *State, ins ssa.Instruction, what string, goal smt.Term) {
+	if x.unit == nil || x.unit.Spec == nil || x.unit.Spec.Opts["locks"] == "" {
+		st.assume(goal)
+		return
+	}
 	x.e.obligation(st, "lock", what+x.siteName(ins), "C20.lock", what, posString(x.e.w.fset(), ins.Pos()), goal)
 	st.assume(goal)
 }
